@@ -1,4 +1,5 @@
 import Bmc.Proofs.C16
+import Bmc.Proofs.GenDec.CipherSuiteRecords
 #print axioms Bmc.Proofs.C16.parse_encode
 #print axioms Bmc.Proofs.C16.parse_total
 #print axioms Bmc.Proofs.C16.parse_sound
@@ -21,3 +22,5 @@ import Bmc.Proofs.C16
 #print axioms Bmc.Proofs.C16.sensorInfo_std
 #print axioms Bmc.Proofs.C16.sensorInfo_dcmi
 #print axioms Bmc.Proofs.C16.sensorInfo_err
+#print axioms Bmc.Proofs.GenDec.parseCipherSuiteRecordData_gen_eq
+#print axioms Bmc.Proofs.GenDec.parseCipherSuiteRecordData_fuel
